@@ -224,68 +224,5 @@ Proof.
   rewrite (below_refused _ op rr Hw2 Hr); [reflexivity|lia].
 Qed.
 
-(* ---- the oracle accepts what the model produces ---- *)
-Definition c08_valid (c : c08_case) : Prop := c8_init c < two64 /\ Forall (fun st => s8_cur st < two64) (c8_steps c).
-
-Lemma opt_beqb_eq a b : opt_eqb beqb a b = true -> a = b.
-Proof.
-  destruct a, b; cbn; try discriminate; [|reflexivity]. intros H. apply beqb_eq in H. congruence.
-Qed.
-
-Lemma cobs_eqb_eq a b : cobs_eqb a b = true -> a = b.
-Proof.
-  destruct a, b; cbn; try discriminate; try reflexivity.
-  - intros H. apply andb_true_iff in H as [H1 H2]. apply N.eqb_eq in H1. subst.
-    destruct res, res0; try discriminate; reflexivity.
-  - destruct res, res0; try discriminate; reflexivity.
-Qed.
-
-Lemma rec_wfb_of rec : rec_wf rec -> rec_wfb rec = true.
-Proof. intros [->|[r [-> _]]]; unfold rec_wfb; [reflexivity|]. rewrite be64_length. reflexivity. Qed.
-
-Lemma c08_run_orc steps : forall s,
-  cwf s -> Forall (fun st => s8_cur st < two64) steps ->
-  c08_run s steps = true -> c08_orc (c_cur s) (floor_of (c_rec s)) steps = true.
-Proof.
-  induction steps as [|st t IH]; intros s Hw Hv Hrun; [reflexivity|].
-  inversion Hv as [|? ? Hv1 Hv2]; subst.
-  cbn [c08_run] in Hrun. destruct (cstep s (s8_op st)) as [s' o] eqn:E.
-  repeat (apply andb_true_iff in Hrun as [Hrun ?]).
-  apply cobs_eqb_eq in Hrun. apply N.eqb_eq in H1. apply opt_beqb_eq in H0.
-  assert (Hs' : s' = fst (cstep s (s8_op st))) by (rewrite E; reflexivity).
-  assert (Hc1 : c_cur (fst (cstep s (s8_op st))) < two64) by (rewrite <- Hs', H1; exact Hv1).
-  destruct (cstep_spec s (s8_op st) Hw Hc1) as (Hw1 & Hcm & Hfm). rewrite <- Hs' in *.
-  cbn [c08_orc]. apply andb_true_iff. split.
-  - unfold c08_step_ok. rewrite <- H0, <- Hrun.
-    repeat (apply andb_true_iff; split).
-    + apply rec_wfb_of. exact Hw1.
-    + apply N.leb_le. exact Hfm.
-    + destruct (s8_op st) eqn:Eop; try reflexivity.
-      * cbn [cstep] in E. pose proof (backend_compact_spec s r nranges commit_ok Hw) as Hb.
-        destruct (backend_compact s r nranges commit_ok) as [s1 [h res]] eqn:Eb. injection E as <- <-.
-        destruct res; try reflexivity.
-        assert (Hcs : c_cur s < two64).
-        { pose proof (bc_cur s r nranges commit_ok) as Hbc. rewrite Eb in Hbc. cbn [fst] in Hbc. lia. }
-        apply N.leb_le. apply (Hb Hcs). reflexivity.
-      * cbn [cstep] in E. pose proof (backend_compact_spec (mkC (c_cur s) 0 (c_rec s)) r nranges true Hw) as Hb.
-        destruct (backend_compact (mkC (c_cur s) 0 (c_rec s)) r nranges true) as [s1 [h res]] eqn:Eb. injection E as <- <-.
-        destruct res; try reflexivity. cbn [c_cur c_rec] in *.
-        assert (Hcs : c_cur s < two64) by lia.
-        apply N.leb_le. apply (Hb Hcs). reflexivity.
-    + destruct (read_rev (c_cur s) (s8_op st)) as [r|] eqn:Er; [|reflexivity].
-      destruct (r <? floor_of (c_rec s)) eqn:El.
-      * apply N.ltb_lt in El. rewrite (below_refused s _ r Hw Er El) in E. injection E as <- <-. reflexivity.
-      * destruct (s8_op st); cbn [read_rev] in Er; try discriminate; cbn [cstep] in E; injection E as <- <-; reflexivity.
-  - rewrite <- H1, <- H0. apply IH; assumption.
-Qed.
-
-Lemma c08_oracle_sound c : c08_valid c -> c08_check c = true -> c08_oracle c = None.
-Proof.
-  intros [Hi Hv] Hc. unfold c08_oracle, c08_check in *.
-  pose proof (c08_run_orc (c8_steps c) (mkC (c8_init c) 0 None)) as H.
-  cbn [c_cur c_rec floor_of] in H. rewrite H; [reflexivity| |exact Hv|exact Hc].
-  left. reflexivity.
-Qed.
-
 Lemma record_wf ops s : cwf s -> c_cur (crun s ops) < two64 -> cwf (crun s ops).
 Proof. intros H1 H2. exact (proj1 (crun_spec ops s H1 H2)). Qed.
